@@ -73,6 +73,9 @@ class Builder:
                     mult = int(mult)
                 return L.Multiply(list(a[0]), mult, conj=bool(a[4][0]))
             m = _arr(list(a[1]), a[2], a[3])
+            if len(a) > 5 and len(a[5]) > 0 and a[5][0] in (1, 2):
+                # a multiplier array stored in a narrow integer dtype (an 8-bit mask / small integer weights): the same numbers
+                m = np.real(m).astype(np.uint8 if a[5][0] == 1 else np.int16)
             self.captured.append(m)
             return L.Multiply(list(a[0]), m, conj=bool(a[4][0]))
         if k in ("MatMul", "RightMatMul"):
